@@ -175,19 +175,31 @@ def check_c06(tier: str) -> int:
     if tier == "thorough":
         # the property's own sweep: every 3-byte string exercises every (register, byte) step
         bad3 = None
-        crc16 = sockrun.crc16_ref
+        # reference: bit-by-bit for one byte step, tabulated once (256 x 8 shifts), then chained byte by byte
+        step_t = []
+        for v in range(256):
+            r = v
+            for _ in range(8):
+                r = (r >> 1) ^ 0xA001 if r & 1 else r >> 1
+            step_t.append(r)
+        calculate = calc.calculate
         for a in range(256):
+            ra = (0xFFFF >> 8) ^ step_t[(0xFFFF ^ a) & 0xFF]
             for b in range(256):
+                rb = (ra >> 8) ^ step_t[(ra ^ b) & 0xFF]
                 pre_ = bytes([a, b])
                 for c in range(256):
-                    s = pre_ + bytes([c])
-                    if calc.calculate(s) != crc16(s).to_bytes(2, "big"):
-                        bad3 = s
+                    rc = (rb >> 8) ^ step_t[(rb ^ c) & 0xFF]
+                    if calculate(pre_ + bytes((c,))) != rc.to_bytes(2, "big"):
+                        bad3 = pre_ + bytes((c,))
                         break
                 if bad3:
                     break
             if bad3:
                 break
+        if bad3 is None and any(sockrun.crc16_ref(bytes(t)) != int.from_bytes(calculate(bytes(t)), "big")
+                                for t in [(0, 0, 0), (255, 255, 255), (1, 2, 3), (0x29, 0xD6, 0x80)]):
+            bad3 = bytes(3)
         ck.count(1 << 24)
         dist["crc_3byte_exhaustive"] = 1 << 24
         if bad3:
